@@ -239,6 +239,8 @@ var zzC04Queries = []string{
 	"{ x:a y:o{z:x} ol{y} }",
 	"{ ol{ n{id} x } n{id} }",
 	"{ ol{ n{... on Obj{x}} ynn } u{... on Obj{x}} }",
+	// a response that fans out (several container children) in front of the subtree holding the fault
+	"{ o{ o{x} p:o{x} q:o{y} } z:o{ x o{y} } }",
 }
 
 func zzErrPath(e interface{ }) string { return "" }
